@@ -16,12 +16,12 @@ LEVEL = "exploration"
 RULE = ("ragged (time, frequency-list) pairs: 0-8 frames of 0-4 pitches on an exact MIDI lattice (integer semitones + offsets chosen so that "
         "no distance, also modulo 12, equals a tolerance), estimates derived from the reference (kept / detuned / octave-shifted / dropped / "
         "extra) or independent, same or different time bases (different hop and start, shorter/longer range), window in {0.25, 0.3, 0.5, "
-        "0.75}; non-trivial = a frame with 0 < TP < min(n_ref, n_est), a chroma gain, or a differing time base with at least one "
+        "0.75}; one in eight pairs is the same frame sequence stamped 1/16 or 1/8 s early or late; non-trivial = a frame with 0 < TP < min(n_ref, n_est), a chroma gain, or a differing time base with at least one "
         "reference time outside the estimate's range or on an exact tie; distinct by SHA-1")
 ASSUMPTIONS = [
     "oracle computes MIDI numbers as exact rationals and matches by brute force (/verif/oracles/multipitch.py); Hz given to mir_eval are 440*2^((m-69)/12)",
     "on an exact tie between two estimate frames either neighbour is accepted",
-    "time bases that np.allclose would call equal are either identical or differ by >= 1/8 s (lattice), so 'differs' is unambiguous",
+    "time bases that np.allclose would call equal are either identical or differ by >= 1/16 s (lattice), so 'differs' is unambiguous",
 ]
 
 
@@ -114,6 +114,8 @@ def pred_metrics(case, ctx):
             elif not any(g.tolist() == _hz([ef[i]])[0].tolist() for i in c):
                 raise Violation("reference time %r: resampled frame %r is not the nearest estimate frame (candidates %r)" % (rt[k], g.tolist(), c))
         ctx.event("different_timebase")
+        if len(rt) == len(et) and len(rt) >= 2 and all(abs(a - b) < (rt[1] - rt[0]) / 2 for a, b in zip(rt, et)):
+            ctx.event("same_frames_shifted_by_less_than_half_a_hop")
         if outside:
             ctx.event("ref_time_outside_est_range")
         if tie:
